@@ -455,4 +455,112 @@ def links_accumulate(repo: Repo) -> RuleRun:
 links_accumulate.rule_id = "C17.LINKS-ACCUMULATE"
 
 
-RULES = [purity, position_writers, link_algebra, affine_kinds, mirror_matrix, trig_domain, params_used, owns_geometry, angle_dimension, closest_search, float_stores, who_writes_points, symmetry_exact, angle_between_exact, match_tolerance, links_accumulate]
+def radial_exact(repo: Repo, prop: str = PROP, rule: str = "C17.RADIAL-EXACT") -> RuleRun:
+    """'for any parameter values its position lies on the declared ... circle (same radius and height about the axis)' - for normals
+    'in general position (non-unit ...)': RadialClamp is constructed by the abstract evaluator over exact rational vectors (centre,
+    a non-unit normal of rational length, a start point at rational distance from the axis) and its position function is then
+    called with the parameter of a Pythagorean turn (cos 3/5, sin 4/5) in either sense. The point returned must be the start point
+    turned about the axis: same distance from the axis, same height, the expected place. functions.rotate is given its exact
+    meaning (Rodrigues' formula about the NORMALISED axis)."""
+    from fractions import Fraction
+
+    from .. import exact
+
+    r = RuleRun(prop, rule, floor=6, what="RadialClamp's position function turns the start point about the normalised axis: exact on its circle for non-unit normals, either sense (exact rational evaluation)")
+    r.exhaustive = True
+    cls = repo.cls("optimize.clamps.curve.RadialClamp")
+    init = repo.find_method(cls, "__init__")
+    r.require(init is not None, "RadialClamp.__init__ vanished")
+    T = Fraction(927295218, 10**9)  # stands for the angle whose cosine is 3/5 and sine 4/5
+    C, S = Fraction(3, 5), Fraction(4, 5)
+
+    def trig(x):
+        v = exact.value(x) if isinstance(x, exact.Rat) else x
+        if v == 0:
+            return Fraction(1), Fraction(0)
+        if v == T:
+            return C, S
+        if v == -T:
+            return C, -S
+        raise NotEvaluable(f"cosine / sine of {v} (the model only knows 0 and +-the Pythagorean angle)")
+
+    def rodrigues(p, angle, axis, origin):
+        c_, s_ = trig(angle)
+        k = axis.scale(exact.c(1) / exact.rsqrt(axis.dot(axis)))
+        v = p - origin
+        return origin + v.scale(exact.c(c_)) + k.cross(v).scale(exact.c(s_)) + k.scale(k.dot(v) * exact.c(1 - c_))
+
+    def hook(ev, call: ast.Call, name):
+        nm = (name or "").split(".")[-1]
+        if nm == "rotate" and len(call.args) == 4 and (name or "").split(".")[0] in ("f", "functions"):
+            p, angle, axis, origin = (ev.eval(a) for a in call.args)
+            if all(isinstance(x, exact.Vec) for x in (p, axis, origin)):
+                return rodrigues(p, angle, axis, origin)
+        if nm in ("cos", "sin") and len(call.args) == 1:
+            c_, s_ = trig(ev.eval(call.args[0]))
+            return exact.c(c_ if nm == "cos" else s_)
+        if nm == "get_params" and isinstance(call.func, ast.Attribute):
+            return [exact.c(0)]
+        if nm in ("array", "asarray", "copy") and call.args:
+            return ev.eval(call.args[0])
+        return NO_MATCH
+
+    n = 0
+    for normal, across_dir in (((0, 0, Fraction(5, 2)), (Fraction(3, 5), Fraction(4, 5), 0)), ((4, 6, 12), (Fraction(6, 7), Fraction(2, 7), Fraction(-3, 7))), ((0, 0, 1), (1, 0, 0))):
+        N = exact.vec(*normal)
+        centre = exact.vec(Fraction(1, 3), -2, Fraction(5, 7))
+        nlen = exact.rsqrt(N.dot(N))
+        khat = N.scale(exact.c(1) / nlen)
+        for radius, height in ((Fraction(2), Fraction(9, 20)), (Fraction(3, 7), Fraction(0))):
+            start = centre + exact.vec(*across_dir).scale(exact.c(radius)) + khat.scale(exact.c(height))
+            clamp = Obj("clamp", cls=cls)
+            ev = exact.evaluator(repo, init.module, extra=hook)
+            try:
+                ev.call_funcinfo(init, [clamp, start, centre, N, None])
+            except (Raised, NotEvaluable) as err:
+                raise AnalysisError(f"RadialClamp.__init__ not evaluable over exact rational vectors (normal {normal}): {err}") from err
+            fnv = clamp.get("function") if clamp.has("function") else None
+            r.require(fnv is not None, "RadialClamp does not hand a position function to ClampBase (on the model)")
+            for sense in (1, -1):
+                param = exact.c(radius * T * sense)
+                try:
+                    got = ev.call_value(fnv, [[param]])
+                except (Raised, NotEvaluable) as err:
+                    raise AnalysisError(f"RadialClamp's position function not evaluable over exact rational vectors (normal {normal}): {err}") from err
+                want = rodrigues(start, exact.c(T * sense), N, centre)
+                n += 1
+                key = f"normal={tuple(str(x) for x in normal)}:r={radius}:{'+' if sense > 0 else '-'}"
+                if not isinstance(got, exact.Vec):
+                    r.bad(init, f"RadialClamp's position function returns {got!r} (not a point) on the exact model", init.node, key=key)
+                    continue
+                v = got - centre
+                h = exact.value(khat.dot(v))
+                rad2 = exact.value(v.dot(v)) - h * h
+                same = exact.same(got, want)
+                r.check(
+                    same,
+                    init,
+                    f"normal {tuple(str(x) for x in normal)}, radius {radius}, turn {'+' if sense > 0 else '-'}: on the circle",
+                    f"RadialClamp(start, centre, normal={tuple(str(x) for x in normal)}) moved by the parameter of a turn with cosine 3/5: the point is at distance^2 {rad2} from the axis and height {h} "
+                    f"(start: distance^2 {radius * radius}, height {height}) - it has left the declared circle; the position function is right for unit normals only (the axis is used without being normalised)",
+                    init.node,
+                    key=key,
+                )
+    r.require(n >= 6, f"only {n} exact scenarios examined")
+    return r
+
+
+radial_exact.rule_id = "C17.RADIAL-EXACT"
+
+
+def no_alias_snapshot(repo: Repo) -> RuleRun:
+    """'After the leader of a link moves, the follower is ...' - however the leader was moved, also in place: no update is skipped on the strength of a comparison with an alias."""
+    from ..memo import alias_snapshot_rule
+
+    return alias_snapshot_rule(repo, PROP, "C17.NO-ALIAS-SNAPSHOT")
+
+
+no_alias_snapshot.rule_id = "C17.NO-ALIAS-SNAPSHOT"
+
+
+RULES = [purity, position_writers, link_algebra, affine_kinds, mirror_matrix, trig_domain, params_used, owns_geometry, angle_dimension, closest_search, float_stores, who_writes_points, symmetry_exact, angle_between_exact, match_tolerance, links_accumulate, radial_exact, no_alias_snapshot]
